@@ -6,6 +6,7 @@ import (
 	"fmt"
 	"sort"
 	"strings"
+	"sync/atomic"
 
 	"verif/harness/lib"
 )
@@ -645,7 +646,7 @@ func (h *harness) sequentialCase(i int) {
 	}
 	nops := 4 + h.r.Intn(10)
 	var ts uint64 = uint64(1000 + h.r.Intn(1000))
-	for k := 0; k < nops; k++ {
+	for k := 0; k < nops && atomic.LoadInt32(&in.hung) == 0; k++ {
 		switch x := h.r.Intn(20); {
 		case x == 0:
 			op := &opT{kind: "getlogs", fault: "NoFault", desc: "getlogs"}
